@@ -10,7 +10,9 @@ from __future__ import annotations
 import multiprocessing as mp
 import os
 import re
+from pathlib import Path
 import subprocess
+import sys
 import tempfile
 import time
 from dataclasses import dataclass, field
@@ -116,6 +118,81 @@ def _run_cvc5(smt: str, timeout_ms: int) -> tuple[str, str]:
         os.unlink(path)
 
 
+def _cvc5_sat_check(smt: str, timeout_ms: int) -> str:
+    """re-check a `sat` of the cvc5 CLI: ask it for the values of the constants and evaluate the assertions under them
+    with z3's simplifier -> 'valid' | 'invalid' | 'inconclusive' (functions, unparsable values)"""
+    try:
+        sol = z3.Solver()
+        sol.from_string(smt)
+        consts: dict[str, z3.ExprRef] = {}
+
+        def walk(e, seen):
+            if e.get_id() in seen:
+                return
+            seen.add(e.get_id())
+            if z3.is_const(e) and e.decl().kind() == z3.Z3_OP_UNINTERPRETED:
+                consts[e.decl().name()] = e
+            for c in e.children():
+                walk(c, seen)
+
+        seen: set[int] = set()
+        for a in sol.assertions():
+            walk(a, seen)
+        names = [n for n, c in consts.items() if c.sort().kind() in (z3.Z3_INT_SORT, z3.Z3_BOOL_SORT) or c.sort() == z3.StringSort()]
+        if not names:
+            return "inconclusive"
+        txt = re.sub(r"\(set-info :status \w+\)", "", smt)
+        q = "(set-logic ALL)\n(set-option :produce-models true)\n" + txt.replace("(check-sat)", "(check-sat)\n(get-value (" + " ".join(f"|{n}|" for n in names) + "))")
+        with tempfile.NamedTemporaryFile("w", suffix=".smt2", delete=False, dir=os.environ.get("PYVC_WORK", None)) as f:
+            f.write(q)
+            path = f.name
+        try:
+            p = subprocess.run([CVC5, "--strings-exp", f"--tlimit={timeout_ms}", path], capture_output=True, text=True, timeout=timeout_ms / 1000 + 5, check=False)
+        finally:
+            os.unlink(path)
+        out = p.stdout.strip()
+        if not out.startswith("sat"):
+            return "inconclusive"
+        body = out[out.index("\n") + 1 :] if "\n" in out else ""
+        vals = z3.parse_smt2_string("\n".join(f"(declare-fun |{n}| () {consts[n].sort().sexpr()})" for n in names) + "\n" + "\n".join(
+            f"(assert (= |{m.group(1)}| {m.group(2)}))" for m in re.finditer(r"\(\|?([^\s|()]+)\|?\s+((?:\"(?:[^\"]|\"\")*\")|\(- \d+\)|-?\d+|true|false)\)", body)))
+        sub = []
+        for eq in vals:
+            lhs, rhs = eq.children()
+            sub.append((consts[lhs.decl().name()], rhs))
+        if len(sub) < len(consts):
+            # constants of other sorts (datatypes, sequences) or missing values: cannot evaluate everything
+            pass
+        verdict = "valid"
+        for a in sol.assertions():
+            v = z3.simplify(z3.substitute(a, *sub))
+            if z3.is_false(v):
+                return "invalid"
+            if not z3.is_true(v):
+                verdict = "inconclusive"
+        return verdict
+    except Exception:  # noqa: BLE001
+        return "inconclusive"
+
+
+def _run_cvc5_14(smt: str, timeout_ms: int) -> str:
+    """cvc5 1.4 (Python wheel, own process): tie-breaker for the older CLI's `sat` answers"""
+    txt = re.sub(r"\(set-info :status \w+\)", "", smt)
+    txt = "(set-logic ALL)\n" + txt
+    with tempfile.NamedTemporaryFile("w", suffix=".smt2", delete=False, dir=os.environ.get("PYVC_WORK", None)) as f:
+        f.write(txt)
+        path = f.name
+    try:
+        p = subprocess.run([sys.executable, "-m", "pyvc.cvc5run", path, str(timeout_ms)], capture_output=True, text=True, timeout=timeout_ms / 1000 + 10, check=False,
+                           cwd=str(Path(__file__).resolve().parent.parent))
+        out = p.stdout.strip().splitlines()
+        return out[-1] if out and out[-1] in ("sat", "unsat", "unknown") else "unknown"
+    except subprocess.TimeoutExpired:
+        return "unknown"
+    finally:
+        os.unlink(path)
+
+
 def _work(job: tuple[int, str, bool, int, bool]) -> tuple[int, str, str, float, dict[str, str], str]:
     i, smt, cover, timeout_ms, cross = job
     t0 = time.time()
@@ -142,13 +219,29 @@ def _work(job: tuple[int, str, bool, int, bool]) -> tuple[int, str, str, float, 
         r2, why2 = _run_cvc5(smt, timeout_ms)
         if r2 in ("sat", "unsat"):
             r, backend, why = r2, "cvc5", ""
-            if r2 == "sat":
-                # ask z3 for a model with the long budget (cvc5 is run without model production)
+            if r2 == "sat" and _cvc5_sat_check(smt, timeout_ms) == "invalid":
+                r3, model3, why3 = _run_z3(smt, timeout_ms)
+                if r3 in ("sat", "unsat"):
+                    r, backend, model, why = r3, "z3", model3, "cvc5 1.0.3's sat discarded (its model falsifies an assertion)"
+                else:
+                    return i, "undecided", "z3+cvc5", time.time() - t0, {}, f"cvc5 1.0.3's sat discarded (invalid model); z3: {why3}"
+            elif r2 == "sat":
+                # cvc5 1.0.3's `sat` is believed only when confirmed: a checked z3 model, or cvc5 1.4 agreeing
                 r3, model3, _ = _run_z3(smt, timeout_ms)
                 if r3 == "sat":
                     model = model3
-                elif r3 == "unsat":
-                    return i, "fault", "z3+cvc5", time.time() - t0, {}, "solver disagreement: cvc5 sat, z3 unsat"
+                else:
+                    r4 = _run_cvc5_14(smt, timeout_ms)
+                    if r3 == "unsat" and r4 != "sat":
+                        r, backend, why = "unsat", "z3", "cvc5 1.0.3 answered sat, overruled by z3" + (" and cvc5 1.4" if r4 == "unsat" else "")
+                    elif r3 == "unsat":
+                        return i, "fault", "z3+cvc5", time.time() - t0, {}, "solver disagreement: cvc5 1.0.3 and 1.4 sat, z3 unsat"
+                    elif r4 == "unsat":
+                        r, backend, why = "unsat", "cvc5-1.4", "cvc5 1.0.3 answered sat, overruled by cvc5 1.4"
+                    elif r4 != "sat":
+                        return i, "undecided", "cvc5", time.time() - t0, {}, "cvc5 1.0.3 sat, neither z3 nor cvc5 1.4 confirms within the budget"
+                    else:
+                        backend = "cvc5+cvc5-1.4"
         elif timeout_ms > short:
             r3, model3, why3 = _run_z3(smt, timeout_ms)
             if r3 in ("sat", "unsat"):
@@ -159,9 +252,17 @@ def _work(job: tuple[int, str, bool, int, bool]) -> tuple[int, str, str, float, 
             why = f"z3:{why} cvc5:{why2 or r2}"
     elif cross and r == "unsat":
         r2, _ = _run_cvc5(smt, timeout_ms)
-        if r2 == "sat":
-            return i, "fault", "z3+cvc5", time.time() - t0, {}, "solver disagreement: z3 unsat, cvc5 sat"
-        backend = "z3+cvc5" if r2 == "unsat" else "z3"
+        if r2 == "sat" and _cvc5_sat_check(smt, timeout_ms) == "invalid":
+            backend = "z3 (cvc5 1.0.3 answered sat with a model that falsifies an assertion: discarded)"
+        elif r2 == "sat":
+            r4 = _run_cvc5_14(smt, timeout_ms)  # the old CLI has answered sat wrongly on RE queries: ask cvc5 1.4
+            if r4 == "sat":
+                return i, "fault", "z3+cvc5", time.time() - t0, {}, "solver disagreement: z3 unsat, cvc5 1.0.3 and 1.4 sat"
+            backend = "z3+cvc5-1.4" if r4 == "unsat" else "z3 (cvc5 1.0.3 sat unconfirmed by cvc5 1.4)"
+            if r4 != "unsat":
+                return i, "fault", "z3+cvc5", time.time() - t0, {}, "solver disagreement: z3 unsat, cvc5 1.0.3 sat, cvc5 1.4 undecided"
+        else:
+            backend = "z3+cvc5" if r2 == "unsat" else "z3"
     dt = time.time() - t0
     if cover:
         st = {"sat": "covered", "unsat": "vacuous", "error": "fault"}.get(r, "undecided")
